@@ -65,6 +65,82 @@ func (m *mon) runHistory() {
 		m.histDstReuse(a, i)
 		m.histSamplers(a, i)
 	})
+	a := m.newAcc()
+	m.ownership(a)
+	a.flush()
+}
+
+// ownership: constructors copy their slice arguments and accessors return
+// copies, so later changes by the caller must not reach the object.
+func (m *mon) ownership(a *acc) {
+	w := []float64{1, 2, 3, 4, 0, 7, 0.5}
+	c := distuv.NewCategorical(w, nil)
+	p3 := c.Prob(3)
+	w[3] = 100
+	if c.Prob(3) != p3 {
+		a.fail("distuv.NewCategorical|caller-modifies-argument|object-changed", "w[3] = 100 after construction", "Prob(3) %v -> %v", p3, c.Prob(3))
+	}
+	w2 := []float64{5, 1, 1, 1, 1, 1, 1}
+	c.ReweightAll(w2)
+	p0 := c.Prob(0)
+	w2[0] = 0
+	if c.Prob(0) != p0 {
+		a.fail("distuv.Categorical.ReweightAll|caller-modifies-argument|object-changed", "w[0] = 0 after ReweightAll", "Prob(0) %v -> %v", p0, c.Prob(0))
+	}
+	sw := []float64{0, 0, 1, 0}
+	s := sampleuv.NewWeighted(sw, m.c.RNG("own.weighted"))
+	sw[0], sw[2] = 1, 0
+	if i, ok := s.Take(); !ok || i != 2 {
+		a.fail("sampleuv.NewWeighted|caller-modifies-argument|object-changed", "weights swapped after construction", "Take() = (%d,%v), want 2", i, ok)
+	}
+	mu := []float64{1, 2}
+	sg := mat.NewSymDense(2, []float64{2, 0.3, 0.3, 1})
+	n, _ := distmv.NewNormal(mu, sg, nil)
+	x := []float64{0.5, 0.5}
+	lp := n.LogProb(x)
+	mu[0] = 50
+	sg.SetSym(0, 0, 40)
+	if n.LogProb(x) != lp {
+		a.fail("distmv.NewNormal|caller-modifies-argument|object-changed", "mu and sigma changed after construction", "LogProb %v -> %v", lp, n.LogProb(x))
+	}
+	got := n.Mean(nil)
+	got[1] = -77
+	if n.Mean(nil)[1] != 2 {
+		a.fail("distmv.Normal.Mean|caller-modifies-result|object-changed", "Mean(nil)[1] = -77", "Mean now %v", n.Mean(nil))
+	}
+	mu = []float64{1, 2}
+	sg = mat.NewSymDense(2, []float64{2, 0.3, 0.3, 1})
+	st, _ := distmv.NewStudentsT(mu, sg, 4, nil)
+	lp = st.LogProb(x)
+	mu[0] = 50
+	sg.SetSym(0, 0, 40)
+	if st.LogProb(x) != lp {
+		a.fail("distmv.NewStudentsT|caller-modifies-argument|object-changed", "mu and sigma changed after construction", "LogProb %v -> %v", lp, st.LogProb(x))
+	}
+	al := []float64{2, 3, 4}
+	d := distmv.NewDirichlet(al, nil)
+	m0 := d.Mean(nil)[0]
+	al[0] = 90
+	if d.Mean(nil)[0] != m0 {
+		a.fail("distmv.NewDirichlet|caller-modifies-argument|object-changed", "alpha[0] = 90 after construction", "Mean[0] %v -> %v", m0, d.Mean(nil)[0])
+	}
+	bn := []r1.Interval{{Min: 0, Max: 2}, {Min: -1, Max: 1}}
+	u := distmv.NewUniform(bn, nil)
+	e := u.Entropy()
+	bn[0].Max = 200
+	bb := u.Bounds(nil)
+	bb[1].Max = 300
+	if u.Entropy() != e {
+		a.fail("distmv.NewUniform|caller-modifies-argument-or-Bounds-result|object-changed", "bounds changed by the caller", "Entropy %v -> %v", e, u.Entropy())
+	}
+	wv := mat.NewSymDense(2, []float64{2, 0.3, 0.3, 1})
+	wi, _ := distmat.NewWishart(wv, 3.5, nil)
+	lw := wi.LogProbSym(sg)
+	wv.SetSym(1, 1, 30)
+	if wi.LogProbSym(sg) != lw {
+		a.fail("distmat.NewWishart|caller-modifies-argument|object-changed", "V changed after construction", "LogProbSym %v -> %v", lw, wi.LogProbSym(sg))
+	}
+	a.eval("ownership|constructors-and-accessors", 9)
 }
 
 func histWeights(r *vrt.Rand, n int) []float64 {
